@@ -901,6 +901,38 @@ def _exitstack_rollback(s):
     return _loc(ast.Try(body=mid, handlers=[handler], orelse=[], finalbody=[]), s)
 
 
+def _try_lookup_to_membership(s):
+    """`try: return TABLE[k]  except KeyError: pass`  ==  `if k in TABLE: return TABLE[k]`   (TABLE a module-level table
+    by its ALL_CAPS name, k a plain name: the subscript is the only thing in the try that can raise KeyError)"""
+    if s.finalbody or len(s.handlers) != 1 or len(s.body) != 1:
+        return s
+    h = s.handlers[0]
+    r = s.body[0]
+    # `try: v = TABLE[k]  except KeyError: <leave>`  ==  `if k not in TABLE: <leave>` then `v = TABLE[k]`
+    if isinstance(h.type, ast.Name) and h.type.id == "KeyError" and h.name is None and not s.orelse and _exits(h.body) and not any(isinstance(n, ast.Raise) and n.exc is None for st in h.body for n in ast.walk(st)) and isinstance(r, ast.Assign) and len(r.targets) == 1 and isinstance(r.targets[0], ast.Name) and isinstance(r.value, ast.Subscript) and isinstance(r.value.slice, ast.Name) and isinstance(r.value.value, ast.Dict) and all(isinstance(k, ast.Constant) for k in r.value.value.keys):
+        test = _loc(ast.Compare(left=_loc(ast.Name(id=r.value.slice.id, ctx=ast.Load()), s), ops=[ast.NotIn()], comparators=[copy.deepcopy(r.value.value)]), s)
+        guard = _loc(ast.If(test=test, body=list(h.body), orelse=[]), s)
+        shell = _loc(ast.If(test=_loc(ast.Constant(value=True), s), body=[guard, r], orelse=[]), s)
+        ast.fix_missing_locations(shell)
+        return canon_stmt(shell)
+    if not (isinstance(h.type, ast.Name) and h.type.id == "KeyError" and h.name is None and len(h.body) == 1 and isinstance(h.body[0], ast.Pass)):
+        return s
+    # `try: v = TABLE[k]  except KeyError: pass  else: A`  ==  `if k in TABLE: v = TABLE[k]; A`
+    if isinstance(r, ast.Assign) and len(r.targets) == 1 and isinstance(r.targets[0], ast.Name) and isinstance(r.value, ast.Subscript) and isinstance(r.value.slice, ast.Name) and (isinstance(r.value.value, ast.Name) and r.value.value.id.isupper() or isinstance(r.value.value, ast.Dict) and all(isinstance(k, ast.Constant) for k in r.value.value.keys)):
+        test = _loc(ast.Compare(left=_loc(ast.Name(id=r.value.slice.id, ctx=ast.Load()), s), ops=[ast.In()], comparators=[copy.deepcopy(r.value.value)]), s)
+        new = _loc(ast.If(test=test, body=[r] + list(s.orelse), orelse=[]), s)
+        ast.fix_missing_locations(new)
+        return canon_stmt(new)
+    if s.orelse:
+        return s
+    if not (isinstance(r, ast.Return) and isinstance(r.value, ast.Subscript) and isinstance(r.value.value, ast.Name) and r.value.value.id.isupper() and isinstance(r.value.slice, ast.Name)):
+        return s
+    test = _loc(ast.Compare(left=_loc(ast.Name(id=r.value.slice.id, ctx=ast.Load()), s), ops=[ast.In()], comparators=[_loc(ast.Name(id=r.value.value.id, ctx=ast.Load()), s)]), s)
+    new = _loc(ast.If(test=test, body=[r], orelse=[]), s)
+    ast.fix_missing_locations(new)
+    return new
+
+
 def _thread_try_sentinel(stmts):
     """`try: v = E  except X: v = S` + `if v is S: A else: B`  (S a private sentinel, v not read in A)  ==
     `try: v = E  except X: A  else: B`: the handler is the only place v can have become S"""
@@ -1714,6 +1746,8 @@ def canon_block(stmts):
     res = [_bool_if_deep(s) for s in res]
     if len(res) > 1:
         res = [s for s in res if not isinstance(s, ast.Pass)] or res[:1]
+    if any(isinstance(x, ast.Try) for x in res):
+        res = [_try_lookup_to_membership(x) if isinstance(x, ast.Try) else x for x in res]
     if len(res) > 1 and any(isinstance(x, ast.Try) for x in res):
         res = _thread_try_sentinel(res)
     if len(res) > 1 and any(isinstance(x, ast.Assign) and isinstance(x.value, ast.Call) and isinstance(x.value.func, ast.Attribute) and x.value.func.attr == "get" and len(x.value.args) == 2 for x in res):
